@@ -113,7 +113,9 @@ class Od(_PO, _tc.chain.ChainObject):
 
 
 class MemValue(_tc.InMemoryData):
-    pass
+    # a user data class that is a sized collection: half of the generated objects are empty, i.e. FALSY objects
+    def __len__(self):
+        return getattr(self, 'tcv_len', 0)
 
 
 _RT.classes['MemValue'] = MemValue
